@@ -346,9 +346,51 @@ def run_variant(name, res):
 
 # ------------------------------------------------------------------ driver
 
+CONTEXT_TEXTS = ['true', 'True', 'TRUE', 'false', 'False', 'FALSE', 'yes', 'no', 'on', 'off', 'y', 'n', '1.5', '1e3', '.5', '5.', '.inf',
+                 '-.inf', '.nan', '.NaN', '1', '0x1F', '1_000', '1e', '.', 'tRUE', 'null', '~', '2001-01-01', 'a', '+.5e-1', '1:30']
+
+
+def run_context(res):
+    """the typing of a plain scalar does not depend on what else the document holds: each text once quoted and once
+    plain in ONE document, in either order and at several positions, must load as [str, what the plain text alone
+    loads as] (a resolver that remembers by text, or a table patched at the wrong moment, shows here)"""
+    load = yatiml.load_function()
+    alone = {}
+    for t in CONTEXT_TEXTS:
+        try:
+            alone[t] = ('ok', load(t))
+        except Exception as e:     # noqa
+            alone[t] = ('err', type(e).__name__)
+    def same(a, b):
+        return type(a) is type(b) and (a == b or (a != a and b != b))
+    for t in CONTEXT_TEXTS:
+        if alone[t][0] != 'ok':
+            continue
+        v = alone[t][1]
+        for doc, pick in (('["%s", %s]' % (t, t), lambda d: (d[0], d[1])), ('[%s, "%s"]' % (t, t), lambda d: (d[1], d[0])),
+                          ("{a: '%s', b: %s}" % (t, t), lambda d: (d['a'], d['b'])), ('- "%s"\n- [%s]\n' % (t, t), lambda d: (d[0], d[1][0])),
+                          ('k: %s\nl: "%s"\nm: %s\n' % (t, t, t), lambda d: (d['l'], d['m']))):
+            res.states += 1
+            res.transitions += 1
+            res.traces += 1
+            res.nontrivial += 1
+            try:
+                q, pl = pick(load(doc))
+                ok = type(q) is str and q == t and same(pl, v)
+                got = (q, pl)
+            except Exception as e:     # noqa
+                ok, got = False, '%s: %s' % (type(e).__name__, e)
+            if not ok:
+                res.violation('C09:context:%s' % type(v).__name__,
+                              'document %r gives %r for (quoted, plain); the quoted one is the string %r and the plain text alone loads as %r' % (
+                                  doc, got, t, v), {'kind': 'context'})
+            else:
+                res.hist['context-ok'] += 1
+
+
 def units(tier):
     b = BOUNDS(tier)
-    out = [('automata',)] + [('variant', v) for v in VARIANTS]
+    out = [('automata',), ('context',)] + [('variant', v) for v in VARIANTS]
     for name, alpha, L in (('num', NUM_ALPHA, b['num_maxlen']), ('word', WORD_ALPHA, b['word_maxlen']),
                            ('tf', TF_ALPHA, b['tf_maxlen'])):
         out.append((name, '', 1))       # strings of length <= 1
@@ -368,6 +410,9 @@ def run_unit(unit, tier):
         return res
     if unit[0] == 'variant':
         run_variant(unit[1], res)
+        return res
+    if unit[0] == 'context':
+        run_context(res)
         return res
     if _DFAS is None:
         try:
@@ -397,6 +442,11 @@ def finish(total, tier):
 
 def replay(payload):
     res = core.Result()
+    if payload.get('kind') == 'context':
+        run_context(res)
+        if res.violations:
+            return True, '; '.join(v['what'] for v in res.violations[:3])
+        return False, 'plain scalars are typed independently of quoted ones in the same document'
     if payload.get('kind') == 'variant':
         run_variant(payload['variant'], res)
         if res.violations:
